@@ -2,11 +2,31 @@
    exports, outside the recorded classes and when every mentioned custom name is declared. *)
 From Coq Require Import String Ascii.
 From Coq Require Import List Arith Bool.
-Require Import TT.Model.Str TT.Model.TypeParse TT.Model.Harvest TT.Model.Pipeline TT.Model.Events.
+Require Import TT.Model.Str TT.Model.C07TypeParse TT.Model.C07Harvest TT.Model.Pipeline.
 Require Import TT.Spec.TsLex TT.Spec.TsModule TT.Spec.TsObs TT.Spec.C02Closed TT.Model.C02Model.
-Require Import TT.Proofs.RenderProofs TT.Proofs.C02Reflect.
+Require Import TT.Proofs.C02Reflect.
 Import ListNotations.
 Local Open Scope list_scope.
+
+(* induction over TypeStructure with the tuple's list *)
+Section TsInd.
+  Variable P : tstruct -> Prop.
+  Hypothesis Hprim : forall p, P (TPrim p).
+  Hypothesis Harr : forall u, P u -> P (TArr u).
+  Hypothesis Hmap : forall k v, P k -> P v -> P (TMap k v).
+  Hypothesis Hset : forall u, P u -> P (TSet u).
+  Hypothesis Htup : forall l, Forall P l -> P (TTuple l).
+  Hypothesis Hopt : forall u, P u -> P (TOpt u).
+  Hypothesis Hres : forall u, P u -> P (TRes u).
+  Hypothesis Hcus : forall n, P (TCustom n).
+  Fixpoint ts_ind' (t : tstruct) : P t :=
+    match t with
+    | TPrim p => Hprim p | TArr u => Harr u (ts_ind' u) | TMap k v => Hmap k v (ts_ind' k) (ts_ind' v)
+    | TSet u => Hset u (ts_ind' u)
+    | TTuple l => Htup l ((fix go l : Forall P l := match l with [] => Forall_nil _ | x :: l' => Forall_cons _ (ts_ind' x) (go l') end) l)
+    | TOpt u => Hopt u (ts_ind' u) | TRes u => Hres u (ts_ind' u) | TCustom n => Hcus n
+    end.
+End TsInd.
 
 (* ---------------- primitive leaves of parsed structures ---------------- *)
 Fixpoint prims_ok (t : tstruct) : Prop :=
@@ -34,9 +54,9 @@ Proof. intros g l. induction l as [|x l IH]; intros r Hg H; cbn [mapM] in H.
   - destruct (g x) eqn:Ex; [|discriminate]. destruct (mapM g l) eqn:El; [|discriminate]. inversion H; subst.
     split; [eapply Hg; eauto|]. apply IH; auto. Qed.
 
-Lemma parse_prims_ok : forall f s t, parse2 f s = Some t -> prims_ok t.
+Lemma parse_prims_ok : forall f s t, parse f s = Some t -> prims_ok t.
 Proof. induction f as [|f IH]; intros s t H; [discriminate|].
-  cbn [parse2] in H.
+  cbn [parse] in H.
   repeat match type of H with
   | context[if ?c then _ else _] => destruct c
   | context[match ?x with _ => _ end] => destruct x eqn:?
@@ -50,7 +70,7 @@ Proof. induction f as [|f IH]; intros s t H; [discriminate|].
 Qed.
 
 Lemma pts_prims_ok : forall s, prims_ok (pts s).
-Proof. intros s. unfold pts, parse_type_structure2. destruct (parse2 (S (List.length s)) s) eqn:E.
+Proof. intros s. unfold pts, parse_type_structure. destruct (parse (S (List.length s)) s) eqn:E.
   - eapply parse_prims_ok. exact E.
   - exact Logic.I. Qed.
 
@@ -124,9 +144,13 @@ Section Closed.
   Proof. unfold wf in Hwf. rewrite !andb_true_iff in Hwf. destruct Hwf as [[[_ H] _] _].
     rewrite forallb_forall in H. intros k v Hin. apply (H (k, v)). exact Hin. Qed.
 
-  Lemma declared : forall t n, In t (all_site_ts p) -> In n (customs m t) -> In n (used p).
-  Proof. intros t n Ht Hn. unfold refs_declared in Hrd. rewrite forallb_forall in Hrd.
-    specialize (Hrd t Ht). rewrite forallb_forall in Hrd. apply mem_In. apply Hrd. exact Hn. Qed.
+  Lemma declared : forall t n, In t (decl_site_ts p) -> In n (customs m t) -> In n (used p).
+  Proof. intros t n Ht Hn. unfold refs_declared in Hrd. apply andb_true_iff in Hrd. destruct Hrd as [H _].
+    rewrite forallb_forall in H. specialize (H t Ht). rewrite forallb_forall in H. apply mem_In. apply H. exact Hn. Qed.
+  Lemma declared_ev : forall t n, In t (event_site_ts p) -> In n (customs m t) -> In n prims8 \/ In n (used p).
+  Proof. intros t n Ht Hn. unfold refs_declared in Hrd. apply andb_true_iff in Hrd. destruct Hrd as [_ H].
+    rewrite forallb_forall in H. specialize (H t Ht). rewrite forallb_forall in H. specialize (H n Hn).
+    apply orb_true_iff in H. destruct H as [H|H]; [left|right]; apply mem_In; exact H. Qed.
 
   Lemma kf_parts : kf_prefix p = false /\ kf_dup_listener p = false /\ kf_collision p zod = false.
   Proof. unfold kf_C02 in Hkf. rewrite !orb_false_iff in Hkf. tauto. Qed.
@@ -147,21 +171,21 @@ Section Closed.
   Proof. intros e H. unfold levents in H. eapply first_by_name_incl. exact H. Qed.
 
   (* ---------------- sites ---------------- *)
-  Lemma site_cmd : forall c t, In c (cmds p) -> In t (cmd_site_ts c) -> In t (all_site_ts p).
-  Proof. intros c t Hc Ht. unfold all_site_ts. apply in_or_app. left. apply in_flat_map. exists c. auto. Qed.
-  Lemma site_param : forall c x, In c (cmds p) -> In x (vparams c) -> In (pts (qtts (snd x))) (all_site_ts p).
+  Lemma site_cmd : forall c t, In c (cmds p) -> In t (cmd_site_ts c) -> In t (decl_site_ts p).
+  Proof. intros c t Hc Ht. unfold decl_site_ts. apply in_or_app. left. apply in_flat_map. exists c. auto. Qed.
+  Lemma site_param : forall c x, In c (cmds p) -> In x (vparams c) -> In (pts (qtts (snd x))) (decl_site_ts p).
   Proof. intros c x Hc Hx. apply (site_cmd c); [exact Hc|]. unfold cmd_site_ts. apply in_or_app. left.
     apply in_map_iff. exists x. auto. Qed.
-  Lemma site_ret : forall c, In c (cmds p) -> In (ret_ts c) (all_site_ts p).
+  Lemma site_ret : forall c, In c (cmds p) -> In (ret_ts c) (decl_site_ts p).
   Proof. intros c Hc. apply (site_cmd c); [exact Hc|]. unfold cmd_site_ts. apply in_or_app. right. apply in_or_app. left. left. reflexivity. Qed.
-  Lemma site_chan : forall c ch, In c (cmds p) -> In ch (chans c) -> In (pts (qtts (snd ch))) (all_site_ts p).
+  Lemma site_chan : forall c ch, In c (cmds p) -> In ch (chans c) -> In (pts (qtts (snd ch))) (decl_site_ts p).
   Proof. intros c ch Hc Hx. apply (site_cmd c); [exact Hc|]. unfold cmd_site_ts. apply in_or_app. right. apply in_or_app. right.
     apply in_map_iff. exists ch. auto. Qed.
-  Lemma site_field : forall n f, In n (used p) -> In f (fields_of p n) -> In (field_ts f) (all_site_ts p).
-  Proof. intros n f Hn Hf. unfold all_site_ts. apply in_or_app. right. apply in_or_app. left. apply in_flat_map. exists n.
+  Lemma site_field : forall n f, In n (used p) -> In f (fields_of p n) -> In (field_ts f) (decl_site_ts p).
+  Proof. intros n f Hn Hf. unfold decl_site_ts. apply in_or_app. right. apply in_flat_map. exists n.
     split; [exact Hn|]. apply in_map_iff. exists f. auto. Qed.
-  Lemma site_event : forall e, In e (levents p) -> In (pts (snd e)) (all_site_ts p).
-  Proof. intros e He. apply levents_events in He. unfold all_site_ts. apply in_or_app. right. apply in_or_app. right. apply in_map_iff. exists e. auto. Qed.
+  Lemma site_event : forall e, In e (levents p) -> In (pts (snd e)) (event_site_ts p).
+  Proof. intros e He. apply levents_events in He. unfold event_site_ts. apply in_map_iff. exists e. auto. Qed.
   Lemma pre_ret : forall c, In c (cmds p) -> In (ret_ts c) (prefixed_ts p).
   Proof. intros c Hc. unfold prefixed_ts. apply in_or_app. left. apply in_map_iff. exists c. auto. Qed.
   Lemma pre_event : forall e, In e (levents p) -> In (pts (snd e)) (prefixed_ts p).
@@ -190,7 +214,7 @@ Section Closed.
   Proof. intros c ch Hc H. unfold any_chan. apply existsb_exists. exists c. split; [exact Hc|]. eapply has_c_in. exact H. Qed.
 
   (* a bare name of a type text in type position: built-in or an exported declaration *)
-  Lemma bare_type_name : forall t x, In t (all_site_ts p) -> prims_ok t -> In x (bn m t) -> In x builtins \/ In x tex.
+  Lemma bare_type_name : forall t x, In t (decl_site_ts p) -> prims_ok t -> In x (bn m t) -> In x builtins \/ In x tex.
   Proof. intros t x Ht Hok Hx. destruct (bn_sound m t Hmaps Hok x Hx) as [Hb|Hc]; [left; exact Hb|].
     right. apply custom_exported. eapply declared; eauto. Qed.
 
@@ -204,16 +228,37 @@ Section Closed.
       + eapply site_chan; eauto.
       + apply pts_prims_ok. Qed.
 
+  (* add_types_prefix qualifies no name it lists as primitive *)
+  Lemma atp_qual_not_prim : forall t rs a n, atp_refs m t = Some rs -> In (Qual a n) rs -> mem n prims8 = false.
+  Proof. induction t as [s|u IH|k v IHk IHv|u IH|l IH|u IH|u IH|c] using ts_ind'; intros rs a n E Hin; cbn [atp_refs] in E.
+    - inversion E; subst. unfold leaf_refs in Hin. destruct (mem s prims8) eqn:Es; destruct Hin as [H|[]]; inversion H; subst. exact Es.
+    - eapply IH; eauto.
+    - inversion E; subst. change (In (Qual a n) (map Bare (S_ "Record" :: bn m k ++ bn m v))) in Hin.
+      apply in_map_iff in Hin. destruct Hin as [x [H _]]. discriminate.
+    - eapply IH; eauto.
+    - destruct l; inversion E; subst.
+      + destruct Hin as [H|[]]. discriminate.
+      + apply in_map_iff in Hin. destruct Hin as [x [H _]]. discriminate.
+    - destruct (leftmost_map u).
+      + inversion E; subst. apply in_map_iff in Hin. destruct Hin as [x [H _]]. discriminate.
+      + destruct (atp_refs m u) as [l'|] eqn:Eu; [|discriminate]. inversion E; subst. apply in_app_or in Hin.
+        destruct Hin as [H|[H|[]]]; [eapply IH; eauto|discriminate].
+    - eapply IH; eauto.
+    - inversion E; subst. unfold leaf_refs in Hin. destruct (mem (mtext m c) prims8) eqn:Es; destruct Hin as [H|[]]; inversion H; subst. exact Es. Qed.
+
   (* a prefixed site: every reference resolves in a module that imports * as types from ./types *)
-  Lemma prefixed_resolves : forall t (M : msum) r, In t (prefixed_ts p) -> In t (all_site_ts p) ->
+  Lemma prefixed_resolves : forall t (M : msum) r, In t (prefixed_ts p) ->
+    (forall n, In n (customs m t) -> In n prims8 \/ In n (used p)) ->
     In (S_ "types", types_spec) (ms_star M) ->
     In r (match atp_refs m t with Some l => l | None => [] end) -> resolves tex M r.
-  Proof. intros t M r Hpre Hsite Hstar Hr. pose proof (clean t Hpre) as Hc. unfold atp_clean in Hc.
+  Proof. intros t M r Hpre Hdecl Hstar Hr. pose proof (clean t Hpre) as Hc. unfold atp_clean in Hc.
     destruct (atp_refs m t) as [rs|] eqn:E; [|discriminate]. rewrite forallb_forall in Hc. specialize (Hc r Hr).
     destruct r as [n|a n].
     - cbn [resolves]. right. right. apply mem_In. exact Hc.
     - apply andb_true_iff in Hc. destruct Hc as [Ha Hn]. apply str_eqb_eq in Ha. subst a. apply mem_In in Hn.
-      cbn [resolves]. split; [exact Hstar|]. apply custom_exported. eapply declared; eauto. Qed.
+      cbn [resolves]. split; [exact Hstar|]. apply custom_exported.
+      destruct (Hdecl n Hn) as [Hp|Hu]; [|exact Hu]. exfalso.
+      pose proof (atp_qual_not_prim t rs _ n E Hr) as Hnp. apply mem_In in Hp. rewrite Hp in Hnp. discriminate. Qed.
 
   Ltac builtin := cbn [resolves]; right; right; apply mem_In; reflexivity.
 
@@ -277,7 +322,8 @@ Section Closed.
       apply in_app_or in Hr. destruct Hr as [Hr|Hr].
       { destruct Hr as [<-|[]]. builtin. }
       apply in_app_or in Hr. destruct Hr as [Hr|Hr].
-      { unfold ret_refs in Hr. fold m in Hr. eapply prefixed_resolves; eauto using pre_ret, site_ret, commands_star. }
+      { unfold ret_refs in Hr. fold m in Hr. eapply prefixed_resolves; eauto using pre_ret, commands_star.
+        intros n Hn. right. eapply declared; [apply site_ret; exact Hc|exact Hn]. }
       apply in_app_or in Hr. destruct Hr as [Hr|Hr].
       { destruct zod_cases as [Ez|Ez]; rewrite Ez in Hr; [|destruct Hr]. destruct (has_p c) eqn:Hp; [|destruct Hr]. cbn [andb opt_l] in Hr. destruct Hr as [<-|[<-|[]]].
         - cbn [resolves]. split; [apply commands_star|]. apply pschema_exported; auto.
@@ -288,8 +334,9 @@ Section Closed.
   Lemma events_closed : module_closed tex (events_sum p).
   Proof. intros r Hr. unfold events_sum in Hr. cbn [ms_refs] in Hr. apply in_flat_map in Hr. destruct Hr as [e [He Hr]].
     apply in_app_or in Hr. destruct Hr as [Hr|Hr].
-    - unfold ev_refs in Hr. fold m in Hr. eapply prefixed_resolves; eauto using pre_event, site_event.
-      unfold events_sum. cbn [ms_star]. left. reflexivity.
+    - unfold ev_refs in Hr. fold m in Hr. eapply prefixed_resolves; eauto using pre_event.
+      + intros n Hn. eapply declared_ev; [apply site_event; exact He|exact Hn].
+      + unfold events_sum. cbn [ms_star]. left. reflexivity.
     - destruct Hr as [<-|[<-|[<-|[<-|[]]]]]; try builtin.
       + cbn [resolves]. right. left. unfold events_sum. cbn [ms_imports]. right. left. reflexivity.
       + cbn [resolves]. right. left. unfold events_sum. cbn [ms_imports]. left. reflexivity. Qed.
